@@ -5,18 +5,23 @@ For one case it (1) runs the model of the aligner, (2) evaluates the statement o
 implementation's own pairs: their total must equal the optimum of the alignment class under
 the affine gap model, computed by the reference dynamic program `Spec.AffineOpt` with all
 transitions (`cross = true`); any optimal alignment is acceptable, paths are never compared
-for the verdict; (3) recognises the known findings
+for the verdict; (3) recognises the findings K1 and K3 — both repaired; the recognisers stay so
+that a regression is reported by name (`KNOWN_FINDINGS.txt` no longer lists them, so the check
+then fails):
   K1  total = optimum over alignments with no gap next to a gap in the other sequence
       (`cross = false`) < optimum;
   K2  FittedAffine stopped at the reference start with query letters left;
   K3  FittedAffine consumed the query, the total is below the no-adjacent-gaps optimum for its
-      end, and it *is* the optimum, for that end, of the class the fill explores — alignments
-      that end with a letter pair and start with a letter pair (or, from reference position 0,
-      with a gap in the reference), `Spec.FittedRestricted`; the yardstick is the match-layer
-      value of the last column of row `e` of the model's table, proved to be that optimum
-      (`fittedRestricted_yardstick`).  The traceback no longer takes part in K3 (after the
-      repair of K5 it is layer-aware; totals telescope to the table value either way).
-      Tag `k3-model-end`: the model's own run ends at the same row.
+      end, and it *is* the optimum, for that end, of the class the fill explored before the
+      repair — alignments that end with a letter pair and start with a letter pair (or, from
+      reference position 0, with a gap in the reference), `Spec.FittedRestricted`; the yardstick
+      is the match-layer value of the last column of row `e` of the table of the fill before
+      the repair of K1 (`fitTable false`), proved to be that optimum
+      (`fittedRestricted_yardstick`).  Tag `k3-model-end`: the run of the model of the aligner
+      before the repairs (`fitAlignLegacy`) ends at the same row with the same total.
+Tags `oldfill-same` / `oldfill-differs`: the model of the aligner before the repairs of K1/K3
+(`legacyFillAlign`) reports the same total / another one; `noadj<opt`: the optimum needs a gap
+directly next to a gap in the other sequence.
 Core only.
 -/
 import Biogo.Drive.AffCommon
@@ -43,8 +48,10 @@ def handleCase (c : Case) (obs : String) : Verdict :=
   | .pairs ps _ _ =>
     let tags := base ++ (if hasGap ps then ["gapped"] else ["ungapped"])
     let tot := total ps
-    let modelTot := match model with | .ok mp => some (total mp) | .error _ => none
-    let modelEnd := match model with | .ok mp => some (lastEnd mp).1 | .error _ => none
+    let old := legacyFillAlign c.w S c.gapOpen r q
+    let oldTot := match old with | .ok mp => some (total mp) | .error _ => none
+    let oldEnd := match old with | .ok mp => some (lastEnd mp).1 | .error _ => none
+    let tags := tags ++ (if oldTot == some tot then ["oldfill-same"] else ["oldfill-differs"])
     let same := modelObs model == obsHead obs
     let fin (tags : List String) : Verdict := if same then ok tags else diff (modelObs model) tags
     if !(wellFormed ps) then fail "returned pairs are not one monotone path" tags else
@@ -80,8 +87,8 @@ def handleCase (c : Case) (obs : String) : Verdict :=
         if some tot == all then fin (tags ++ ["consumes"] ++ (if na == all then [] else ["noadj<opt"]))
         else if some tot == na ∧ vgt all na then
           known "K1" s!"total={tot} = optimum for end {e} without adjacent opposite gaps < optimum={showV all}" (tags ++ ["k1"])
-        else if vgt na (some tot) ∧ ((fitTable S c.gapOpen r q).at e C).d == some tot then
-          known "K3" s!"total={tot} for end {e} below noadj-optimum={showV na} (optimum={showV all}); it is the optimum over the alignments ending with a letter pair and not starting with a gap after a free reference prefix" (tags ++ ["k3"] ++ (if modelTot == some tot ∧ modelEnd == some e then ["k3-model-end"] else []))
+        else if vgt na (some tot) ∧ ((fitTable false S c.gapOpen r q).at e C).d == some tot then
+          known "K3" s!"total={tot} for end {e} below noadj-optimum={showV na} (optimum={showV all}); it is the optimum over the alignments ending with a letter pair and not starting with a gap after a free reference prefix" (tags ++ ["k3"] ++ (if oldTot == some tot ∧ oldEnd == some e then ["k3-model-end"] else []))
         else fail s!"total={tot} end={e} optimum={showV all} noadj-optimum={showV na}" tags
   | .err code => fail s!"no alignment returned: {code}" base
   | .panic => fail "panic on a legal input" base
